@@ -4,6 +4,7 @@
 #[macro_use]
 pub mod engine;
 pub mod case;
+pub mod fuzzdec;
 pub mod gen;
 pub mod oracle;
 pub mod scan;
